@@ -189,6 +189,10 @@ fn gen_one(ps: &ProgSpec, o: &GenOpts) -> String {
             jstr(&file), st.vars, st.nodes_in_cone, st.disjuncts, st.bytes
         )
         .unwrap();
+        if o.variant == Variant::General && !o.perturb && smt::find_basis_witness(&goals).is_some() {
+            // a zero/unit vector already violates a goal: the driver goes straight to the pinned query
+            e.push_str(",\"basis_candidate\":true");
+        }
         // taint query: only for "output bin of one chunk" goals, general variant only
         if o.variant == Variant::General && !o.perturb && q.goals.iter().all(|g| g.rhs.own_labels().is_some()) {
             let mut lhs = vec![];
